@@ -1,5 +1,6 @@
 // BUILD: variant=san
 // C20 -- string form of an index round-trips exactly.
+#include <errno.h>
 #include "mc.h"
 #include "dom.h"
 #include <ctype.h>
@@ -64,6 +65,13 @@ static void op_fmt(const McArg *a) {
         MC_CHECK(raw[G + i] == 0x5A, "h3ToString(%" PRIx64 ", sz=%zu) touched byte %d beyond the terminator", h, sz, i);
     uint64_t back = 0xdeadbeef;
     mc_trans(1);
+    // the caller's errno and earlier (failed, overflowing) parses are arbitrary history the result must not depend on
+    {
+        uint64_t junk;
+        if ((h & 3) == 1) stringToH3("fffffffffffffffff", &junk);
+        if ((h & 3) == 2) stringToH3("zz", &junk);
+        errno = (h & 4) ? ERANGE : EINVAL;
+    }
     e = stringToH3(buf, &back);
     MC_CHECK(e == E_SUCCESS && back == h, "stringToH3(\"%s\") = %d, %" PRIx64 "; expected %" PRIx64, buf, e, back, h);
 }
@@ -104,6 +112,7 @@ static void run_parse(const unsigned char *s) {
     uint64_t want = 0, out = 0x1122334455667788ull;
     int cl = classify(s, &want);
     mc_trans(1);
+    errno = ERANGE;  // arbitrary caller state
     H3Error e = stringToH3((const char *)s, &out);
     if (cl == CL_VALUE) {
         mc_nontrivial();
